@@ -17,7 +17,7 @@ import (
 )
 
 type flatStats struct {
-	queries, sat, unsat, unknown int
+	queries, sat, unsat, unknown, byAlt int
 	time                         time.Duration
 }
 
@@ -111,7 +111,10 @@ func flatScript(conds []*Term, globals []string, getvals []*Term) string {
 	return sb.String()
 }
 
-// FlatCheck decides conds with a fresh z3 process; with getvals it also returns their values.
+// FlatCheck decides conds one-shot. Two solvers race on the same script - z3's
+// bit-blasting pipeline and cvc5's integer encoding of bit-vector arithmetic
+// (--solve-bv-as-int=sum) - and the first definite answer wins: each of them
+// decides in about a second queries the other one cannot decide in a minute.
 func FlatCheck(bin string, conds []*Term, getvals []*Term, timeoutMs int, tag string) (SatResult, []uint64) {
 	t0 := time.Now()
 	defer func() { flat.time += time.Since(t0) }()
@@ -122,40 +125,85 @@ func FlatCheck(bin string, conds []*Term, getvals []*Term, timeoutMs int, tag st
 	}
 	globals = append(globals, pendingGlobalAsserts...)
 	script := flatScript(conds, globals, getvals)
-	if strings.Contains(bin, "cvc5") {
-		script = "(set-logic ALL)\n" + script
+	type answer struct {
+		r    SatResult
+		vals []uint64
+		who  string
 	}
-	f, err := os.CreateTemp(os.Getenv("SYMGO_TMP"), "flat-*.smt2")
-	if err != nil {
+	bins := []string{bin}
+	if altFlat != "" && !strings.Contains(bin, "cvc5") {
+		bins = append(bins, altFlat)
+	}
+	ch := make(chan answer, len(bins))
+	var cmds []*exec.Cmd
+	for _, b := range bins {
+		f, err := os.CreateTemp(os.Getenv("SYMGO_TMP"), "flat-*.smt2")
+		if err != nil {
+			ch <- answer{Unknown, nil, b}
+			continue
+		}
+		sc := script
+		if strings.Contains(b, "cvc5") {
+			sc = "(set-logic ALL)\n" + script
+		}
+		f.WriteString(sc)
+		f.Close()
+		secs := timeoutMs/1000 + 1
+		cmd := exec.Command(b, fmt.Sprintf("-T:%d", secs), "model.completion=true", f.Name())
+		if strings.Contains(b, "cvc5") {
+			cmd = exec.Command(b, "--lang=smt2", "--produce-models", "--solve-bv-as-int=sum", fmt.Sprintf("--tlimit=%d", timeoutMs), f.Name())
+		}
+		cmds = append(cmds, cmd)
+		go func(b string, cmd *exec.Cmd, fname string) {
+			defer os.Remove(fname)
+			var out bytes.Buffer
+			cmd.Stdout = &out
+			cmd.Run()
+			r, vals := parseFlatAnswer(out.String(), len(getvals))
+			ch <- answer{r, vals, b}
+		}(b, cmd, f.Name())
+	}
+	res := answer{Unknown, nil, ""}
+	for range bins {
+		a := <-ch
+		if a.r != Unknown && (len(getvals) == 0 || a.r == Unsat || a.vals != nil) {
+			res = a
+			break
+		}
+	}
+	for _, c := range cmds {
+		if c.Process != nil {
+			c.Process.Kill()
+		}
+	}
+	switch res.r {
+	case Unsat:
+		flat.unsat++
+	case Sat:
+		flat.sat++
+	default:
 		flat.unknown++
-		return Unknown, nil
+		if os.Getenv("SYMGO_KEEP_UNKNOWN") != "" {
+			os.WriteFile(fmt.Sprintf("%s/unknown-%s-%d.smt2", os.Getenv("SYMGO_KEEP_UNKNOWN"), tag, flat.queries), []byte(script), 0o644)
+		}
 	}
-	defer os.Remove(f.Name())
-	f.WriteString(script)
-	f.Close()
-	secs := timeoutMs/1000 + 1
-	cmd := exec.Command(bin, fmt.Sprintf("-T:%d", secs), "model.completion=true", f.Name())
-	if strings.Contains(bin, "cvc5") {
-		cmd = exec.Command(bin, "--lang=smt2", "--produce-models", "--solve-bv-as-int=sum", fmt.Sprintf("--tlimit=%d", timeoutMs), f.Name())
+	if strings.Contains(res.who, "cvc5") {
+		flat.byAlt++
 	}
-	var out bytes.Buffer
-	cmd.Stdout = &out
-	cmd.Run()
-	text := out.String()
+	return res.r, res.vals
+}
+
+var altFlat string
+
+func parseFlatAnswer(text string, nvals int) (SatResult, []uint64) {
 	lines := strings.SplitN(strings.TrimSpace(text), "\n", 2)
 	switch strings.TrimSpace(lines[0]) {
 	case "unsat":
-		flat.unsat++
 		return Unsat, nil
 	case "sat":
-		flat.sat++
-		if len(getvals) == 0 {
+		if nvals == 0 || len(lines) < 2 {
 			return Sat, nil
 		}
-		if len(lines) < 2 {
-			return Sat, nil
-		}
-		// several get-value answers: parse each balanced s-expression
 		var vals []uint64
 		rest := lines[1]
 		depth, start := 0, -1
@@ -181,14 +229,10 @@ func FlatCheck(bin string, conds []*Term, getvals []*Term, timeoutMs int, tag st
 				}
 			}
 		}
-		if len(vals) != len(getvals) {
+		if len(vals) != nvals {
 			return Sat, nil
 		}
 		return Sat, vals
-	}
-	flat.unknown++
-	if os.Getenv("SYMGO_KEEP_UNKNOWN") != "" {
-		os.WriteFile(fmt.Sprintf("%s/unknown-%s-%d.smt2", os.Getenv("SYMGO_KEEP_UNKNOWN"), tag, flat.queries), []byte(script), 0o644)
 	}
 	return Unknown, nil
 }
